@@ -57,10 +57,10 @@ const (
 
 // pure helpers (no I/O): the real ones
 func SplitHostPort(hostport string) (string, string, error) { return net.SplitHostPort(hostport) }
-func JoinHostPort(host, port string) string                  { return net.JoinHostPort(host, port) }
-func ParseIP(s string) net.IP                                { return net.ParseIP(s) }
-func ParseCIDR(s string) (net.IP, *net.IPNet, error)         { return net.ParseCIDR(s) }
-func IPv4(a, b, c, d byte) net.IP                            { return net.IPv4(a, b, c, d) }
+func JoinHostPort(host, port string) string                 { return net.JoinHostPort(host, port) }
+func ParseIP(s string) net.IP                               { return net.ParseIP(s) }
+func ParseCIDR(s string) (net.IP, *net.IPNet, error)        { return net.ParseCIDR(s) }
+func IPv4(a, b, c, d byte) net.IP                           { return net.IPv4(a, b, c, d) }
 func ResolveTCPAddr(network, address string) (*net.TCPAddr, error) {
 	host, port, err := net.SplitHostPort(address)
 	if err != nil {
@@ -85,7 +85,12 @@ type Net struct {
 	// DialFault, when set, is consulted for every dial (scheduler-owned state only).
 	DialFault func(addr string) error
 	// Tag is stamped on every new connection (incarnation id).
-	Tag    int
+	Tag int
+	// TagOf, when set, is asked in the DIALLING goroutine first: a harness with several actors dialling on their own
+	// (C15's contenders) names the actor by its goroutine - the moment of the dial is the tool's choice (a dial behind a
+	// parked lock happens steps after the scheduler released the actor), so "the tag the scheduler set last" may by then
+	// be another actor's.
+	TagOf  func() (int, bool)
 	events []string
 	closed []string
 }
@@ -167,8 +172,18 @@ func (n *Net) dial(addr string) (*SimConn, error) {
 		}
 	}
 	n.mu.Lock()
+	tagOf := n.TagOf
+	n.mu.Unlock()
+	tag, tagged := 0, false
+	if tagOf != nil {
+		tag, tagged = tagOf()
+	}
+	n.mu.Lock()
 	n.nextID++
-	c := &SimConn{ID: n.nextID, RemoteAddress: addr, Tag: n.Tag}
+	if !tagged {
+		tag = n.Tag
+	}
+	c := &SimConn{ID: n.nextID, RemoteAddress: addr, Tag: tag}
 	c.cond = sync.NewCond(&c.mu)
 	n.Conns = append(n.Conns, c)
 	// connection ids are handed out in the order the dialling goroutines happen to arrive: they never
